@@ -134,7 +134,7 @@ func larkingRecvInDump() (string, bool) {
 // execReal runs one case over a socket and judges it.
 func (g *gen) execReal(c *Case) (vs []viol, outcome string) {
 	e := g.e
-	srv, err := e.server(c.Limit, c.Frag)
+	srv, err := e.server(c.Limit, c.Frag, c.SrvOpt)
 	if err != nil {
 		e.r.Inconclusive("cannot start server: " + err.Error())
 		return nil, "no-server"
@@ -215,7 +215,7 @@ func (c *Case) realRequest(ctx context.Context, base, id string, body io.Reader)
 	} else if c.Shape == "ssget" || c.Shape == "download" {
 		method = "GET"
 	}
-	req, err := http.NewRequestWithContext(ctx, method, base+path, body)
+	req, err := http.NewRequestWithContext(ctx, method, base+c.pathPrefix()+path, body)
 	if err != nil {
 		return nil, err
 	}
@@ -242,6 +242,21 @@ func (c *Case) realRequest(ctx context.Context, base, id string, body io.Reader)
 
 // ------------------------------------------------------------- HTTP/1.1
 
+// pacedReader pauses before every read but the first (paced clients).
+type pacedReader struct {
+	r io.Reader
+	c *Case
+	n int
+}
+
+func (p *pacedReader) Read(b []byte) (int, error) {
+	if p.n > 0 {
+		p.c.pace()
+	}
+	p.n++
+	return p.r.Read(b)
+}
+
 func (g *gen) doH1(c *Case, srv *wire.Server, cl *clients, id string) realResult {
 	ctx, cancel := context.WithTimeout(context.Background(), opTimeout)
 	defer cancel()
@@ -250,7 +265,7 @@ func (g *gen) doH1(c *Case, srv *wire.Server, cl *clients, id string) realResult
 		if c.Lane == "h1" {
 			body = bytes.NewReader(c.sentBody()) // Content-Length
 		} else {
-			body = struct{ io.Reader }{&wire.ScriptReader{Data: c.sentBody(), Cuts: c.Cuts}} // chunked
+			body = struct{ io.Reader }{&pacedReader{r: &wire.ScriptReader{Data: c.sentBody(), Cuts: c.Cuts}, c: c}} // chunked
 		}
 	}
 	req, err := c.realRequest(ctx, srv.URL, id, body)
@@ -282,6 +297,7 @@ func (g *gen) doH1Raw(c *Case, srv *wire.Server, id string) realResult {
 		path = full(c.method())
 	}
 	var sb bytes.Buffer
+	path = c.pathPrefix() + path
 	fmt.Fprintf(&sb, "POST %s HTTP/1.1\r\nHost: verif.test\r\nX-Case: %s\r\nContent-Type: %s\r\n", path, id, c.contentType())
 	sent := c.sentBody()
 	if c.Sched == "chunked" {
@@ -435,6 +451,9 @@ func (g *gen) doH2C(c *Case, srv *wire.Server, cl *clients, id string, rc *rec) 
 		var mr *msgReader
 		var resp *http.Response
 		for i, sg := range c.Segs {
+			if i > 0 {
+				c.pace()
+			}
 			if _, err := pw.Write(c.Body[sg.Start:sg.End]); err != nil {
 				return realResult{incon: "h2c body write failed: " + err.Error()}
 			}
@@ -494,7 +513,10 @@ func (g *gen) doH2C(c *Case, srv *wire.Server, cl *clients, id string, rc *rec) 
 
 	// scripted DATA frames, then END_STREAM (clean or mid-message) or RST
 	go func() {
-		for _, p := range pieces(c.sentBody(), c.Cuts) {
+		for i, p := range pieces(c.sentBody(), c.Cuts) {
+			if i > 0 {
+				c.pace()
+			}
 			if _, err := pw.Write(p); err != nil {
 				return
 			}
@@ -568,6 +590,9 @@ func (g *gen) doGRPC(c *Case, srv *wire.Server, cl *clients, id string, rc *rec)
 		nSend = c.Trunc
 	}
 	for i := 0; i < nSend; i++ {
+		if i > 0 {
+			c.pace()
+		}
 		if err := st.SendMsg(unmarshalAs(c.inDesc(), c.Msgs[i])); err != nil {
 			// the server ended the call; the status comes from RecvMsg
 			break
@@ -725,7 +750,7 @@ func wsDial(ctx context.Context, url string, hdr http.Header) (*wsClient, error)
 func (g *gen) doWS(c *Case, srv *wire.Server, id string, rc *rec) realResult {
 	ctx, cancel := context.WithTimeout(context.Background(), opTimeout)
 	defer cancel()
-	conn, err := wsDial(ctx, "ws://"+srv.Addr+c.wsPath(), http.Header{"X-Case": {id}, "X-Ws": {"1"}})
+	conn, err := wsDial(ctx, "ws://"+srv.Addr+c.pathPrefix()+c.wsPath(), http.Header{"X-Case": {id}, "X-Ws": {"1"}})
 	if err != nil {
 		return realResult{incon: "websocket dial: " + err.Error()}
 	}
@@ -820,6 +845,9 @@ func (g *gen) doWS(c *Case, srv *wire.Server, id string, rc *rec) realResult {
 		return realResult{co: co, clientSaw: false}
 	case c.Step:
 		for i, sg := range c.Segs {
+			if i > 0 {
+				c.pace()
+			}
 			if _, err := conn.Write(c.Body[sg.Start:sg.End]); err != nil {
 				if c.StopAfter > 0 && i >= c.StopAfter {
 					break // the handler has ended the call already
